@@ -228,6 +228,18 @@ func (s *Session) Run(ctx context.Context, dir string, args ...string) error {
 		go func() {
 			f := func() error {
 
+				// Bindingss are diagnostics written by this
+				// run.  What an earlier run of the session (or
+				// a session file written back after a run)
+				// left there says nothing about this run, and
+				// an output that arrives with them would
+				// otherwise be skipped below: an expected
+				// output could never be satisfied and an
+				// inverted one would never be noticed.
+				for i := range iop.OutputSet {
+					iop.OutputSet[i].Bindingss = nil
+				}
+
 				need := 0
 				for _, o := range iop.OutputSet {
 					if !o.Inverted {
